@@ -841,18 +841,19 @@ impl<N> NodeMap<N> {
     pub fn insert(&mut self, k: NodeID, v: N) -> (r: Option<N>)
         ensures final(self)@ == old(self)@.insert(k, v)
     { unimplemented!() }
-}
-pub struct SatCountCache<N, S> { pub map: NodeMap<N>, pub cache_all: bool, pub s: Ghost<S> }
-impl<N: SatCountNumber, S> SatCountCache<N, S> {
-    /// ASSUMED (history): the cache is emptied when the GC epoch or the variable count changed; otherwise its entries were
-    /// computed in this epoch with the same variable count, i.e. with terminal value 2^vars (integer number types)
     #[verifier::external_body]
-    pub fn clear_if_invalid<M: Manager>(&mut self, manager: &M, vars: LevelNo)
-        ensures cache_valid(final(self), pow2(vars as nat)), final(self).cache_all == old(self).cache_all,
+    pub fn clear(&mut self)
+        ensures final(self)@ == Map::<NodeID, N>::empty()
     { unimplemented!() }
 }
+pub struct SatCountCache<N, S> { pub map: NodeMap<N>, pub vars: LevelNo, pub epoch: u64, pub cache_all: bool, pub s: Ghost<S> }
 pub open spec fn cache_valid<N: SatCountNumber, S>(c: &SatCountCache<N, S>, tv: int) -> bool {
     forall|id: NodeID| #[trigger] c.map@.contains_key(id) ==> c.map@[id].nv() == scnt(tree_of(id), tv)
+}
+/// the invariant every user of a count cache maintains (established by `Default`: empty map): if the cache's epoch is the
+/// manager's current GC epoch, its entries are the counts, for `c.vars` variables, of the nodes stored under their ids
+pub open spec fn cache_inv<M: Manager, N: SatCountNumber, S>(c: &SatCountCache<N, S>, m: &M) -> bool {
+    c.epoch == m.gc_count_spec() ==> cache_valid(c, pow2(c.vars as nat))
 }
 
 // ---------- environment stubs (ASSUMED manager contract) ----------
@@ -939,6 +940,8 @@ pub trait Manager: Sized {
     fn drop_edge(&self, e: Self::Edge);
     fn get_terminal(&self, t: Self::Terminal) -> (r: AllocResult<Self::Edge>)
         ensures r is Ok, r->Ok_0.view() == Tree::Leaf(t.tview());
+    spec fn gc_count_spec(&self) -> u64;
+    fn gc_count(&self) -> (r: u64) ensures r == self.gc_count_spec();
     fn num_levels(&self) -> (n: LevelNo) ensures n as int == self.num_levels_spec();
     fn level(&self, no: LevelNo) -> (r: Self::LevelView<'_>)
         requires (no as int) < self.num_levels_spec()
@@ -1257,12 +1260,21 @@ where M: Manager<Terminal = BDDTerminal> + HasApplyCache<M, BDDOp>, M::InnerNode
     ensures res is Ok ==> pick_ok(edge.view(), literal_set.view(), res->Ok_0.view()) && ok(res->Ok_0.view(), manager.num_levels_spec()),
     decreases edge.view(),
 //@end
+impl<N: SatCountNumber, S> SatCountCache<N, S> {
+//@fn file=crates/oxidd-core/src/util/mod.rs path=impl:BuildHasher>~SatCountCache<N,~S>/fn:clear_if_invalid props=C12,C06 vis=pub
+//@spec
+    requires cache_inv(old(self), manager),
+    ensures final(self).epoch == manager.gc_count_spec(), final(self).vars == vars, final(self).cache_all == old(self).cache_all,
+        cache_valid(final(self), pow2(vars as nat)), cache_inv(final(self), manager),
+//@end
+}
 //@fn file=crates/oxidd-rules-bdd/src/simple/apply_rec.rs path=impl:BooleanFunction~for~BDDFunction<F>/fn:sat_count_edge/fn:inner rename=sat_count_edge__inner expect=R13:1 props=C12
 //@header
 fn sat_count_edge__inner<M: Manager<Terminal = BDDTerminal>, N: SatCountNumber, S>(manager: &M, e: Borrowed<M::Edge>, terminal_val: &N, cache: &mut SatCountCache<N, S>) -> (res: N)
 //@spec
     requires num_ok::<N>(), wf(e.view()), cache_valid(old(cache), terminal_val.nv()),
     ensures res.nv() == scnt(e.view(), terminal_val.nv()), cache_valid(final(cache), terminal_val.nv()),
+        final(cache).epoch == old(cache).epoch, final(cache).vars == old(cache).vars,
     decreases e.view(),
 //@end
 //@fn file=crates/oxidd-rules-bdd/src/simple/apply_rec.rs path=impl:BooleanFunction~for~BDDFunction<F>/fn:pick_cube_edge/fn:inner rename=pick_cube_edge__inner props=C13
@@ -1283,8 +1295,8 @@ fn sat_count_edge__inner<M: Manager<Terminal = BDDTerminal>, N: SatCountNumber, 
 //@header
 fn sat_count_edge<M: Manager<Terminal = BDDTerminal>, N: SatCountNumber, S>(manager: &M, edge: &M::Edge, vars: LevelNo, cache: &mut SatCountCache<N, S>) -> (res: N)
 //@spec
-    requires num_ok::<N>(), N::MIN_EXP == 0, ok(edge.view(), vars as int),
-    ensures res.nv() == cnt(edge.view(), 0, vars as int),
+    requires num_ok::<N>(), N::MIN_EXP == 0, ok(edge.view(), vars as int), cache_inv(old(cache), manager),
+    ensures res.nv() == cnt(edge.view(), 0, vars as int), cache_inv(final(cache), manager),
 //@end
 //@fn file=crates/oxidd-rules-bdd/src/simple/apply_rec.rs path=impl:BooleanFunction~for~BDDFunction<F>/fn:and_edge props=C02
 //@header
